@@ -72,6 +72,39 @@ var shapeByLabel = func() map[string]*shape {
 	return m
 }()
 
+// class is the low-cardinality input class of a shape used in violation
+// signatures (one signature per defect site, not per spelling).
+func (s *shape) class() string {
+	if s.undecodable {
+		return "number-unrepresentable"
+	}
+	switch x := s.val.(type) {
+	case nil:
+		return "null"
+	case bool:
+		return "boolean"
+	case float64:
+		switch {
+		case x >= math.MaxInt64 || x < math.MinInt64:
+			return "number-beyond-int64"
+		case x != math.Trunc(x):
+			return "number-fraction"
+		}
+		return "number"
+	case string:
+		if _, err := time.Parse(time.RFC3339, x); err == nil {
+			return "string-rfc3339"
+		}
+		return "string"
+	case []any:
+		if _, ok := allStrings(x); ok {
+			return "array-of-strings"
+		}
+		return "array-with-non-strings"
+	}
+	return "object"
+}
+
 func shapeLabels() []string {
 	out := make([]string, len(shapes))
 	for i, s := range shapes {
@@ -432,7 +465,7 @@ func (d *decType) judge(members []int, shp []*shape) decResult {
 		if allowErr {
 			return decResult{rule: rule, outcome: "error"}
 		}
-		return decResult{rule: rule, outcome: "error", sig: "C12/documented-form-rejected/" + cats[0] + "/" + shp[0].label,
+		return decResult{rule: rule, outcome: "error", sig: "C12/documented-form-rejected/" + cats[0] + "/" + shp[0].class(),
 			detail: fmt.Sprintf("json.Unmarshal(%s, *%s) = %v although every member has a documented form", text, tn, err)}
 	}
 	sv := ptr.Elem()
@@ -456,7 +489,7 @@ func (d *decType) judge(members []int, shp []*shape) decResult {
 			if exps[i].kind == "documented" {
 				what = "C12/documented-form-misread/"
 			}
-			return decResult{rule: rule, outcome: "wrong-value", sig: what + f.cat + "/" + shp[i].label,
+			return decResult{rule: rule, outcome: "wrong-value", sig: what + f.cat + "/" + shp[i].class(),
 				detail: fmt.Sprintf("json.Unmarshal(%s, *%s): member %q decoded to %v, acceptable: %v (error acceptable: %v)", text, tn, f.name, got, exps[i].allowed, exps[i].allowErr)}
 		}
 		if !eq(got, zeroOf(f.cat)) {
@@ -600,7 +633,7 @@ func runLeaf(sp engine.Space, v engine.Vec) engine.Result {
 		if e.allowErr {
 			return engine.OK(rule, "error")
 		}
-		return engine.Bad(rule, "error", "C12/documented-form-rejected/"+cat+"/"+s.label, fmt.Sprintf("json.Unmarshal(%s, *%s) = %v", s.text, t.Name(), err))
+		return engine.Bad(rule, "error", "C12/documented-form-rejected/"+cat+"/"+s.class(), fmt.Sprintf("json.Unmarshal(%s, *%s) = %v", s.text, t.Name(), err))
 	}
 	val := ptr.Elem()
 	if cat == "locale" {
@@ -612,7 +645,7 @@ func runLeaf(sp engine.Space, v engine.Vec) engine.Result {
 		if e.kind == "documented" {
 			what = "C12/documented-form-misread/"
 		}
-		return engine.Bad(rule, "wrong-value", what+cat+"/"+s.label, fmt.Sprintf("json.Unmarshal(%s, *%s) = %v, acceptable: %v", s.text, t.Name(), got, e.allowed))
+		return engine.Bad(rule, "wrong-value", what+cat+"/"+s.class(), fmt.Sprintf("json.Unmarshal(%s, *%s) = %v, acceptable: %v", s.text, t.Name(), got, e.allowed))
 	}
 	if eq(got, zeroOf(cat)) {
 		return engine.OK(rule, "zero")
